@@ -63,11 +63,13 @@ pub struct SpecCfg {
     pub invariant_16: u16,
     /// allow two terms with identical kind and bindings (exactly dependent columns)
     pub allow_duplicates: bool,
+    /// generate specs in other units of x (ModelSpec::unit_exp)
+    pub units: bool,
 }
 
 impl Default for SpecCfg {
     fn default() -> Self {
-        SpecCfg { max_m: 6, max_p: 6, invariant_16: 4, allow_duplicates: true }
+        SpecCfg { max_m: 6, max_p: 6, invariant_16: 4, allow_duplicates: true, units: true }
     }
 }
 
@@ -123,12 +125,16 @@ pub fn spec_from_raw(cfg: SpecCfg, m_pick: u16, kinds: &[(u16, u16)], p_pick: u1
         let c = free[pick(slots[(n + 7) % slots.len()], free.len())];
         terms[j].args[a] = c;
     }
-    let mut spec = ModelSpec { p, terms };
+    let mut spec = ModelSpec { p, terms, unit_exp: 0 };
     // deliberate exact duplicate of a parametric term (rank deficiency by construction)
     if cfg.allow_duplicates && pick(dup, 16) == 0 && (spec.terms.len() < cfg.max_m || big) {
         if let Some(t) = spec.terms.iter().find(|t| t.kind.arity() > 0).cloned() {
             spec.terms.push(t);
         }
+    }
+    // units of x (1/8 of the unit-consistent specs): see ModelSpec::unit_exp
+    if cfg.units && dup & 0x70 == 0x70 && spec.unit_consistent() {
+        spec.unit_exp = [-9i8, -6, -3, 3, 6, 9, -9, 9][pick(dup.rotate_left(4), 8)];
     }
     debug_assert!(spec.is_wellformed(), "{spec:?}");
     spec
@@ -178,6 +184,10 @@ impl ProblemCase {
     pub fn s(&self) -> usize {
         self.y.len()
     }
+    /// class labels of the shape regime: units of x, long data, many right-hand sides
+    pub fn regime(&self) -> Vec<String> {
+        regime_of(&self.spec, self.x.len(), self.y.len())
+    }
     pub fn flavour(&self) -> String {
         format!(
             "{}/{}/{}/{}",
@@ -214,6 +224,10 @@ impl ProblemCase {
             mrhs: self.mrhs,
             par: self.par,
         }
+    }
+    /// worker count of the rayon pool a parallel case runs in: a pure function of the shape
+    pub fn pool_size(&self) -> Option<usize> {
+        pool_size_for(self.par, self.x.len(), self.spec.p, self.y.len())
     }
     /// build the problem of this case's flavour at parameters `alpha` (None = the case's own)
     pub fn build_at<T: Sc>(&self, alpha: Option<&[T]>, ctl: Option<Arc<Ctl>>) -> Result<Box<dyn Prob<T>>, String> {
@@ -282,7 +296,8 @@ pub fn x_from_raw(kind: u16, n: usize, us: &[u16]) -> Vec<f64> {
 /// (relative offset 10^-U(3,10): a singular value between machine epsilon and a user threshold)
 pub fn alpha_tame(spec: &ModelSpec, us: &[u16], collide: u8) -> Vec<f64> {
     let roles = spec.roles();
-    let mut a: Vec<f64> = roles.iter().enumerate().map(|(i, r)| r.tame(us[i % us.len()] as f64 / 65536.0)).collect();
+    let fac = spec.unit_factors();
+    let mut a: Vec<f64> = roles.iter().enumerate().map(|(i, r)| r.tame(us[i % us.len()] as f64 / 65536.0) * fac[i]).collect();
     if collide > 0 {
         for i in 0..a.len() {
             for j in (i + 1)..a.len() {
@@ -366,7 +381,8 @@ pub fn case_from_raw(cfg: CaseCfg, spec: ModelSpec, raw: RawCase) -> ProblemCase
         // occasionally (1/16) many more samples, (1/32) many more right-hand sides than usual
         let n = if n_pick & 0xF == 0xF { m + cfg.max_n + pick(n_pick, 4 * cfg.max_n) } else { m + pick(n_pick, cfg.max_n.max(m) - m + 1) };
         let s = if s_pick % 3 == 0 { 1 } else if s_pick & 0x1F == 0x1F && cfg.max_s > 1 { cfg.max_s + 1 + pick(s_pick, 8) } else { 1 + pick(s_pick, cfg.max_s) };
-        let x = x_from_raw(xkind, n, &us);
+        let unit = spec.unit();
+        let x: Vec<f64> = x_from_raw(xkind, n, &us).into_iter().map(|v| v * unit).collect();
         let alpha = alpha_tame(&spec, &us[8..], if cfg.collisions { [1u8, 2, 2, 0, 0, 0, 0, 0][pick(collide, 8)] } else { 0 });
         let mrhs = s > 1 || flags & 0x101 == 0x101;
         let y: Vec<Vec<f64>> = (0..s).map(|c| (0..n).map(|i| ys[(c * 40 + i) % ys.len()]).collect()).collect();
@@ -425,7 +441,41 @@ pub struct FamCase {
     pub mrhs: bool,
 }
 
+/// pool sizes 1..5, 7 and 16 chosen by the shape (pure, so that replays are reproducible)
+pub fn pool_size_for(par: bool, n: usize, p: usize, s: usize) -> Option<usize> {
+    par.then(|| [2usize, 3, 1, 4, 16, 5, 7, 2][(n + 3 * p + 5 * s) % 8])
+}
+
+/// class labels shared by the evidence of all checks
+pub fn regime_of(spec: &ModelSpec, n: usize, s: usize) -> Vec<String> {
+    let mut v = vec![];
+    if spec.unit_exp != 0 {
+        v.push(format!("x-unit=1e{}", spec.unit_exp));
+    }
+    if n >= 1024 {
+        v.push("long-data:N>=1024".to_string());
+    } else if n > 100 {
+        v.push("N>100".to_string());
+    }
+    if s > 8 {
+        v.push("S>8".to_string());
+    }
+    if spec.m() > 6 {
+        v.push("M>6".to_string());
+    }
+    v
+}
+
 impl FamCase {
+    pub fn regime(&self) -> Vec<String> {
+        regime_of(&self.spec, self.x.len(), self.c_true.len())
+    }
+    /// family instances run in a small dedicated pool whatever their flavour (the statistics are
+    /// computed after the problem was converted to its sequential form, by code that may or may
+    /// not consult the ambient rayon pool)
+    pub fn pool_size(&self) -> Option<usize> {
+        pool_size_for(true, self.x.len(), self.spec.p, self.c_true.len())
+    }
     pub fn n(&self) -> usize {
         self.x.len()
     }
@@ -542,6 +592,10 @@ pub struct FamCfg {
     pub wide_weights: bool,
     /// largest number of decays in family 1
     pub max_decays: usize,
+    /// other units of x for 15 % of the instances
+    pub units: bool,
+    /// 1 of 64 instances is a long data set (1024..5100 samples)
+    pub long_data: bool,
 }
 
 pub fn family_from_raw(cfg: FamCfg, us: &[u16], seed: u64) -> FamCase {
@@ -552,7 +606,8 @@ pub fn family_from_raw(cfg: FamCfg, us: &[u16], seed: u64) -> FamCase {
         v
     };
     let family = 1 + (u() * if cfg.extra_families { 4.0 } else { 3.0 }) as u8;
-    let n = cfg.min_n + (u() * (cfg.max_n - cfg.min_n + 1) as f64) as usize;
+    let un = u();
+    let n = if cfg.long_data && (un * 65536.0) as u32 % 64 == 63 { 1024 + (un * 4077.0) as usize } else { cfg.min_n + (un * (cfg.max_n - cfg.min_n + 1) as f64) as usize };
     let (spec, alpha_true, x): (ModelSpec, Vec<f64>, Vec<f64>) = match family {
         1 => {
             let k = (1 + (u() * 3.0) as usize).min(cfg.max_decays.max(1));
@@ -569,7 +624,7 @@ pub fn family_from_raw(cfg: FamCfg, us: &[u16], seed: u64) -> FamCase {
             let xmax = (3.0 + 2.0 * u()) * taus[k - 1];
             // quadratically spaced samples: dense where the fast decays live
             let x = (0..n).map(|i| xmax * (i as f64 / (n - 1) as f64).powi(2)).collect();
-            (ModelSpec { p: k, terms }, taus, x)
+            (ModelSpec { p: k, terms, unit_exp: 0 }, taus, x)
         }
         2 => {
             let mu = 3.0 + 4.0 * u();
@@ -577,21 +632,21 @@ pub fn family_from_raw(cfg: FamCfg, us: &[u16], seed: u64) -> FamCase {
             let tau = 1.0 + 3.0 * u();
             let terms = vec![Term { kind: Kind::Gauss, args: vec![0, 1] }, Term { kind: Kind::Exp, args: vec![2] }, Term { kind: Kind::One, args: vec![] }];
             let x = (0..n).map(|i| 10.0 * i as f64 / (n - 1) as f64).collect();
-            (ModelSpec { p: 3, terms }, vec![mu, sg, tau], x)
+            (ModelSpec { p: 3, terms, unit_exp: 0 }, vec![mu, sg, tau], x)
         }
         4 => {
             let k = 0.2 + 0.6 * u();
             let b = 1.0 + 2.0 * u();
             let terms = vec![Term { kind: Kind::Rate, args: vec![0] }, Term { kind: Kind::DampedCos, args: vec![0, 1] }, Term { kind: Kind::One, args: vec![] }];
             let x = (0..n).map(|i| 10.0 * i as f64 / (n - 1) as f64).collect();
-            (ModelSpec { p: 2, terms }, vec![k, b], x)
+            (ModelSpec { p: 2, terms, unit_exp: 0 }, vec![k, b], x)
         }
         _ => {
             let tau = 0.5 + 4.5 * u();
             let xmax = (3.0 + 3.0 * u()) * tau;
             let terms = vec![Term { kind: Kind::Exp, args: vec![0] }, Term { kind: Kind::One, args: vec![] }];
             let x = (0..n).map(|i| xmax * i as f64 / (n - 1) as f64).collect();
-            (ModelSpec { p: 1, terms }, vec![tau], x)
+            (ModelSpec { p: 1, terms, unit_exp: 0 }, vec![tau], x)
         }
     };
     let m = spec.m();
@@ -648,6 +703,21 @@ pub fn family_from_raw(cfg: FamCfg, us: &[u16], seed: u64) -> FamCase {
                 }
             }
             case.w = Some(w);
+        }
+    }
+    // units of x (see ModelSpec::unit_exp): drawn last so that the instances are otherwise
+    // the same as without units
+    if cfg.units && u() < 0.15 {
+        let e = [-9i8, -6, -3, 3, 6, 9, -9, 9][(u() * 8.0) as usize % 8];
+        case.spec.unit_exp = e;
+        let unit = case.spec.unit();
+        let fac = case.spec.unit_factors();
+        for v in case.x.iter_mut() {
+            *v *= unit;
+        }
+        for (k, f) in fac.iter().enumerate() {
+            case.alpha_true[k] *= f;
+            case.alpha_start[k] *= f;
         }
     }
     case
